@@ -365,7 +365,7 @@ func init() {
 	}})
 	free := func(p string) { // properties served by driven + free-running families
 		d, f := h1GenDriven(p), h1GenFree(p)
-		every := map[string]int{"C03": 4, "C11": 2}[p]
+		every := map[string]int{"C03": 4, "C11": 2, "C02": 5, "C14": 4}[p]
 		simkit.Register(&simkit.Prop{ID: p, Exec: func(run *simkit.Run) {
 			if run.Case.Family == "h1.free" {
 				h1ExecFree(run)
@@ -381,6 +381,8 @@ func init() {
 	}
 	free("C03")
 	free("C11")
+	free("C02")
+	free("C14")
 	f12 := h1GenFree("C12")
 	simkit.Register(&simkit.Prop{ID: "C12", Exec: func(run *simkit.Run) {
 		if run.Case.Family == "h1.free" {
